@@ -89,7 +89,10 @@ func pcoJobs(w *core.World, rep *core.Report, maxMarshal, maxRound int) []Job {
 					got = exit.Heap[out.Obj].(sym.ArrV).C
 				}
 				name := fmt.Sprintf("(*nasConvert.ProtocolConfigurationOptions).Marshal#post[%d units]", k)
-				fx.Oblige(exit, name, "post", And(Eq(out.Len, ln), fx.EqContent(got, out.Off, want, BVC(64, 0), ln)), "", "configuration-protocol octet 0x80 first, then identifier (2, big-endian), length, contents of each unit in order")
+				eo := fx.Cx.NewObj("expected", types.NewSlice(types.Typ[types.Uint8]), sym.ProvFresh)
+				ex := &sym.Expect{HasResult: true, Result: sym.SliceV{Nil: False, Obj: eo, Off: BVC(64, 0), Len: ln, Cap: ln},
+					Heap: map[*sym.Object]sym.Value{eo: sym.ArrV{EW: 8, Len: ln, C: want}}}
+				fx.ObligeAux(exit, name, "post", And(Eq(out.Len, ln), fx.EqContent(got, out.Off, want, BVC(64, 0), ln)), "", "configuration-protocol octet 0x80 first, then identifier (2, big-endian), length, contents of each unit in order", ex)
 				var gs []*Term
 				for o, v0 := range entry.Heap {
 					if v1, ok := exit.Heap[o]; ok {
